@@ -185,13 +185,13 @@ def run_case(case, folder, read=True):
                 if g != "masked" and g not in written[cc]:
                     problems.append(f"reader: cell {cc} read as {g}, which no writer dumped there")
         for p in procs:
-            p.join(timeout=5)
+            p.join(timeout=90)       # the writers dump a handful of elements; the margin is for a loaded machine
         done = []
         for w, (p, rx) in enumerate(zip(procs, conns)):
             if kill and w == kill["writer"]:
                 done.append(None)
                 continue
-            if rx.poll(2):
+            if rx.poll(10):
                 d, err = rx.recv()
                 done.append(d)
                 if err:
